@@ -297,8 +297,12 @@ def cli_case(case, env):
 def check(tier, seed, t0):
     common.build_rg()
     total = 40 if tier == "quick" else 600
-    rep = common.merge_reports([("cli", common.run_cli_cases(None, cli_case, seed, "c08", total, 3 if tier == "quick" else 38,
-                                                             extra={"tier": tier}))])
+    parts = [("cli", common.run_cli_cases(None, cli_case, seed, "c08", total, 3 if tier == "quick" else 38,
+                                          extra={"tier": tier}))]
+    if tier == "thorough":
+        import sanitize
+        parts.append(("tsan", sanitize.rg_sanitizer_leg("C08", "tsan", cli_case, None, 16, 1, extra={"tier": "quick"})(tier, seed)))
+    rep = common.merge_reports(parts)
     return common.finalize("C08", tier, seed, "exploration", RULE, rep, t0, ASSUME, floor_eval=200, floor_distinct=50)
 
 
